@@ -71,7 +71,7 @@ func probing(line string, b Behav) string {
 	case "D":
 		return "D"
 	case "B":
-		if b.Off >= len(line) && b.Out == "" {
+		if b.Off >= len(line) && strings.TrimSpace(b.Out) == "" {
 			return "D"
 		}
 	}
@@ -132,6 +132,8 @@ func run(ctx *Ctx) *Result {
 		cases = []Case{in.Case}
 	} else {
 		runStrip(ctx, res, drv)
+		runRemoveBanner(ctx, res, drv)
+		runChunks(ctx, res, drv)
 		r := ctx.Rng.Fork()
 		if ctx.Thorough() {
 			cases = append(cases, genExhaustive("ar", nil, []string{msg1, msg2, msg01, msgA}, 1, false)...)
@@ -148,6 +150,17 @@ func run(ctx *Ctx) *Result {
 			cases = append(cases, genExhaustive("a", nil, []string{msg2, msg1}, 1, true)...)
 			cases = append(cases, genRandom(r, 500)...)
 		}
+		// timings other than the fast device: the answer arrives in pieces cut at every byte
+		splitForms := []Behav{{}, {Out: "INFO: x\n"}, {Form: "B", Off: 9, Msg: msg1}, {Form: "A", Pad: 2, Msg: msg2},
+			{Form: "C", Pad: 2, Msg: msg1}, {Form: "D", Msg: msg2}}
+		if ctx.Thorough() {
+			cases = append(cases, genSplits("a", 1, false, splitForms, 12)...)
+			cases = append(cases, genSplits("r", 2, true, splitForms, 12)...)
+		} else {
+			cases = append(cases, genSplits("a", 3, false, splitForms, 12)...)
+			cases = append(cases, genSplits("r", 11, true, splitForms[:3], 12)...)
+		}
+		cases = append(cases, genLate(150)...)
 		cases = append(cases, genFaults(ctx.Thorough())...)
 		// quick tier: the placements that end in a time-out of the real code (known finding) cost > 1 s each
 		if !ctx.Thorough() {
@@ -156,7 +169,7 @@ func run(ctx *Ctx) *Result {
 			for _, c := range cases {
 				if knownSlow(&c) {
 					slow++
-					if slow > 12 {
+					if slow > 8 {
 						continue
 					}
 				}
@@ -186,6 +199,11 @@ func run(ctx *Ctx) *Result {
 		}
 	}
 	outs := runAll(all)
+	// A verdict other than "agrees / known class" is re-examined once on a quiet machine: the case and
+	// its baseline are run again after all workers have finished (the checks run next to 15 other
+	// jobs; a login that times out under load must not count as a finding). Genuine findings are
+	// deterministic and reproduce.
+	var retry []int
 	for i := range cases {
 		c := &cases[i]
 		o := &outs[i]
@@ -193,9 +211,42 @@ func run(ctx *Ctx) *Result {
 		if j, ok := baseIdx[func() string { bf := bannerFree(*c); return caseKey(&bf) }()]; ok {
 			base = &outs[j]
 		}
-		judge(ctx, res, drv, c, o, base)
+		nd, nf := len(res.Disagreements), len(res.Failures)
+		judge(ctx, res, drv, c, o, base, false)
+		suspicious := len(res.Disagreements) > nd
+		for _, f := range res.Failures[nf:] {
+			if !expectedPred[fmt.Sprint(f.Sig["pred"])] {
+				suspicious = true
+			}
+		}
+		if suspicious && ctx.Replay == "" {
+			res.Disagreements = res.Disagreements[:nd]
+			res.Failures = res.Failures[:nf]
+			retry = append(retry, i)
+		}
+	}
+	if len(retry) > 0 {
+		res.CountN("re-examined-after-the-parallel-phase", len(retry))
+		if len(retry) > 40 {
+			retry = retry[:40] // systematic breakage: a sample is enough to report
+		}
+		var again []Case
+		for _, i := range retry {
+			again = append(again, cases[i], bannerFree(cases[i]))
+		}
+		outs2 := runAll(again)
+		for k, i := range retry {
+			judge(ctx, res, drv, &cases[i], &outs2[2*k], &outs2[2*k+1], true)
+		}
 	}
 	return res
+}
+
+// predicates of the findings listed in known/C15.jsonl (not re-examined)
+var expectedPred = map[string]bool{
+	"fresh_prompt_probe_swallows_reply_of_second_half":   true,
+	"abort_inside_schedule_reload_leaves_reload_pending": true,
+	"late_fresh_prompt_missed_by_tryprompt":              true,
 }
 
 // first half of a joined line with a probing banner: the real code times out (known finding)
@@ -214,7 +265,7 @@ func knownSlow(c *Case) bool {
 	return false
 }
 
-func judge(ctx *Ctx, res *Result, drv *Nadrv, c *Case, o *WOutcome, base *WOutcome) {
+func judge(ctx *Ctx, res *Result, drv *Nadrv, c *Case, o *WOutcome, base *WOutcome, again bool) {
 	in := replayIn{Case: *c}
 	nBanner, nBad := 0, 0
 	for _, b := range c.Behav {
@@ -237,9 +288,18 @@ func judge(ctx *Ctx, res *Result, drv *Nadrv, c *Case, o *WOutcome, base *WOutco
 	} else {
 		res.Count("dialogue-variant:save-question")
 	}
-	res.Eval(caseKey(c), nBanner > 0 || nBad > 0 || len(c.Special) > 0)
-	res.Sample(in)
+	if !again {
+		res.Eval(caseKey(c), nBanner > 0 || nBad > 0 || len(c.Special) > 0)
+		res.Sample(in)
+	}
 
+	if len(c.Splits) > 0 {
+		res.Count("timing:answer-in-pieces")
+	}
+	if c.Late {
+		judgeLate(ctx, res, drv, c, o, base, again)
+		return
+	}
 	// ---- tie (b): model == implementation
 	impl := implView(o)
 	if len(o.Changes) == 0 {
@@ -408,5 +468,33 @@ func judge(ctx *Ctx, res *Result, drv *Nadrv, c *Case, o *WOutcome, base *WOutco
 			}
 			res.Fail(sig, "outcome differs from the banner-free run: "+strings.SplitN(impl, "\t", 2)[0], in)
 		}
+	}
+}
+
+// judgeLate: the cut isolates the second prompt of a form-C answer and the piece arrives 150 ms
+// later. The outcome of the real code depends on the timing: either TryPrompt misses the late
+// prompt (model: lateDevice; F-C15d) or, if the client was slow, it behaves as on the fast device.
+func judgeLate(ctx *Ctx, res *Result, drv *Nadrv, c *Case, o *WOutcome, base *WOutcome, again bool) {
+	in := replayIn{Case: *c}
+	if !again {
+		res.Eval(caseKey(c), true)
+		res.Sample(in)
+	}
+	impl := implView(o)
+	late, _, _ := modelView(drv.Ask(modelQueryT(c, o.Changes, modelFixed, true)))
+	fast, _, _ := modelView(drv.Ask(modelQueryT(c, o.Changes, modelFixed, false)))
+	res.TracesVsImpl++
+	switch impl {
+	case late:
+		res.Count("timing:late-prompt:as-lateDevice")
+	case fast:
+		res.Count("timing:late-prompt:as-fast-device")
+	default:
+		res.Disagree("dialogue-late", in, impl, late+" || "+fast)
+		return
+	}
+	if base != nil && (base.Status != o.Status) {
+		res.Fail(map[string]any{"pred": "late_fresh_prompt_missed_by_tryprompt"},
+			"the fresh prompt behind a banner arrives late, TryPrompt (time-out 0) misses it, the stale prompt desynchronises the dialogue: "+strings.SplitN(impl, "\t", 2)[0], in)
 	}
 }
